@@ -23,6 +23,10 @@ func sortFilter(array []any, key any) []any {
 func sortNaturalFilter(array []any, key any) any {
 	result := make([]any, len(array))
 	copy(result, array)
+	for i, item := range result {
+		result[i] = values.ToLiquid(item) // an element may be a Drop
+	}
+	array = result
 	switch {
 	case reflect.ValueOf(array).Len() == 0:
 	case key != nil:
